@@ -86,7 +86,12 @@ class Span(NamedTuple):
 
         Includes lines that are partially covered.
         """
-        lines = self.text.splitlines(keepends=True)
+        # Only "\n" ends a line, as in `Position.line_col()`; `str.splitlines`
+        # would also break at "\r", "\x0c", "\u2028" and others.
+        *head, tail = self.text.split("\n")
+        lines = [f"{line}\n" for line in head]
+        if tail:
+            lines.append(tail)
         start_line_number, _ = self.start_pos().line_col()
         end_line_number, _ = self.end_pos().line_col()
         return lines[start_line_number - 1 : end_line_number]
